@@ -152,7 +152,6 @@ func (s *c20Sys) hookPort(port sim.Port, st *c20Port, onRecv func()) {
 }
 
 func c20Build(G, S, C int) *c20Sys {
-	s := &c20Sys{G: G, S: S, C: C, handlers: map[sim.Handler]string{}, nameIdx: map[string]int{}}
 	p := new(nvplatform.Platform)
 	p.Engine = sim.NewSerialEngine()
 	p.Driver = new(nvdriver.DriverBuilder).WithEngine(p.Engine).WithFreq(1 * sim.Hz).Build("Driver")
@@ -163,6 +162,12 @@ func c20Build(G, S, C int) *c20Sys {
 		p.Driver.RegisterGPU(g)
 		p.Devices = append(p.Devices, g)
 	}
+	return c20Attach(p, G, S, C)
+}
+
+// c20Attach instruments an already built platform of shape G x S x C (also the one A100PlatformBuilder builds)
+func c20Attach(p *nvplatform.Platform, G, S, C int) *c20Sys {
+	s := &c20Sys{G: G, S: S, C: C, handlers: map[sim.Handler]string{}, nameIdx: map[string]int{}}
 	s.p = p
 	s.handlers[p.Driver.TickingComponent] = "D"
 	dp := p.Driver.GetPortByName("ToDevice")
@@ -340,9 +345,19 @@ func (s *c20Sys) final() string {
 	return b.String()
 }
 
+// hooks of harness/c20_eng.go (nil = no effect): c20AfterBuild may instrument the freshly built
+// platform (per-scheduler engine wrappers, frequencies); c20AfterRun sees the finished run.
+var (
+	c20AfterBuild func(s *c20Sys)
+	c20AfterRun   func(r *Run, s *c20Sys, t c20Trace, idle bool)
+)
+
 func c20RunCase(r *Run, G, S, C int, t c20Trace) {
 	k, b, w, n, deg := t.totals()
 	s := c20Build(G, S, C)
+	if c20AfterBuild != nil {
+		c20AfterBuild(s)
+	}
 	runner := new(nvrunner.RunnerBuilder).WithPlatform(s.p).Build()
 	bm := &nvbench.Benchmark{}
 	for _, kk := range t.kernels() {
@@ -397,6 +412,9 @@ func c20RunCase(r *Run, G, S, C int, t c20Trace) {
 	}
 	for i, c := range s.subs {
 		idle = idle && c.VerifFinished() == 0 && c.VerifUnfinished() == 0 && s.subUp[i].in+s.subUp[i].out == 0
+	}
+	if c20AfterRun != nil {
+		c20AfterRun(r, s, t, idle)
 	}
 	if !idle {
 		r.Failf("C20.terminates.not_finished."+deg, cfg,
